@@ -655,6 +655,152 @@ example :
       gitIgnored (materialiseUpdate Gen.RECHECK_IGNORE_SENDS "D".toList [(y, false, prior)] t) ["out".toList, "data".toList, "weights.bin".toList] false = true) ∧
     gitIgnored (materialiseUpdate sendOnlyWhenAbsent "D".toList [(y, false, .file)] t) ["out".toList, "data".toList, "weights.bin".toList] false = false := by decide
 
+/-! ## the batch of one command: a queued file is left without a line only inside an ignored directory
+
+  One command queues SEVERAL operations (a glob copied to a directory, a directory rechecked or brought back after
+  `rm -rf`): directories it had to create and the files it materialised, in created and in existing directories.
+  After the directory lines are written the handler may leave out files - but only files that a written `/D/`
+  line really covers, which is a statement about path COMPONENTS (`out/src/m.bin` is not inside `out/src/m`,
+  `data2/x` is not inside `data`).  The code reads the rules again and checks every queued file against them
+  (`Gen.HANDLER_FILE_FILTER = .reloadCheck`, regenerated from the body of `make_ignore_handler`). -/
+
+/-- the filter between the two writes is the one the model's `handlerUpdate` has: the rules are reloaded and every
+    queued file is checked against them (regenerated from the source; any other filter breaks this by name) -/
+theorem C16_handler_filter_as_in_model : Gen.HANDLER_FILE_FILTER = .reloadCheck := by decide
+
+theorem handlerUpdateWith_code : handlerUpdateWith Gen.HANDLER_FILE_FILTER = handlerUpdate := by
+  rw [C16_handler_filter_as_in_model]; rfl
+
+theorem handlerBatch_eq (drop : List Target → Target → Bool) (date : Str) (dirOps fileOps : List Target) (t : Tree) :
+    handlerBatch drop date dirOps fileOps t =
+      updateFileGitignores (gitRules t) date ((handlerFiles fileOps t).filter (fun f => !drop (handlerDirs dirOps t) f))
+        (handlerMid date dirOps t) := rfl
+
+/-- **For every batch of directory and file operations and every rule `drop` for leaving queued files out that is
+    sound COMPONENT-WISE (`drop dirs f` only when `f` lies inside one of the queued directories `dirs`, as a list of
+    path components): a queued file gets no line only if a directory line written by the same batch contains it, hence
+    git ignores it anyway - after the batch every queued file is ignored.**  `handlerBatch` writes the remaining files
+    against the rules read at the start; excluded regions for the file as everywhere (K6b literal name, xvc's matcher
+    at the start says `NoMatch`: otherwise `C16_handler_ignores_reported_file`), K6b for the queued directories. -/
+theorem C16_batch_file_rule_dropped_only_inside_ignored_dir (drop : List Target → Target → Bool)
+    (hdrop : ∀ ds f, drop ds f = true → ∃ d ∈ ds, insideDir d f = true)
+    (date : Str) (dirOps fileOps : List Target) (t : Tree) (x : Target)
+    (hx : x ∈ fileOps) (hdir : (contentAt x.dir t).isSome = true)
+    (hd : '\n' ∉ date) (hdn : ∀ y ∈ dirOps, '\n' ∉ y.name) (hfn : ∀ y ∈ fileOps, '\n' ∉ y.name) (ht : NoLoneCR t)
+    (hK6b : PlainName x.name)
+    (hK6bd : ∀ y ∈ dirOps, PlainName y.name) (hdd : ∀ y ∈ dirOps, (contentAt y.dir t).isSome = true)
+    (h0 : check (gitRules t) x.pathStr = .noMatch) :
+    (drop (handlerDirs dirOps t) x = true →
+      ∃ d ∈ handlerDirs dirOps t, insideDir d x = true ∧ gitIgnored (handlerMid date dirOps t) (x.dir ++ [x.name]) false = true) ∧
+    gitIgnored (handlerBatch drop date dirOps fileOps t) (x.dir ++ [x.name]) false = true := by
+  have hmemd : ∀ y ∈ handlerDirs dirOps t, y ∈ dirOps := by
+    intro y hy
+    have := (List.mem_filter.1 hy).1
+    rw [List.mem_reverse, mem_dedup, List.mem_reverse] at this
+    exact this
+  have hs1 : ∀ y ∈ handlerDirs dirOps t, '\n' ∉ y.name := fun y hy => hdn y (hmemd y hy)
+  have hs2 : ∀ y ∈ (handlerFiles fileOps t).filter (fun f => !drop (handlerDirs dirOps t) f), '\n' ∉ y.name := by
+    intro y hy
+    have := (List.mem_filter.1 (List.mem_filter.1 hy).1).1
+    rw [List.mem_reverse, mem_dedup, List.mem_reverse] at this
+    exact hfn y this
+  obtain ⟨_, a2⟩ := dirs_more (gitRules t) date (handlerDirs dirOps t) t hd hs1 ht
+  obtain ⟨b1, _⟩ := files_more (gitRules t) date ((handlerFiles fileOps t).filter (fun f => !drop (handlerDirs dirOps t) f))
+    (handlerMid date dirOps t) hd hs2 a2
+  have hinside : drop (handlerDirs dirOps t) x = true →
+      ∃ d ∈ handlerDirs dirOps t, insideDir d x = true ∧ gitIgnored (handlerMid date dirOps t) (x.dir ++ [x.name]) false = true := by
+    intro hdr
+    obtain ⟨d, hdm, hin⟩ := hdrop _ _ hdr
+    refine ⟨d, hdm, hin, ?_⟩
+    obtain ⟨rest, hrest⟩ := insideDir_spec d x hin
+    have hkeep : d ∈ (handlerDirs dirOps t).filter (fun d => check (gitRules t) d.pathStr == .noMatch) :=
+      List.mem_filter.2 ⟨hdm, (List.mem_filter.1 hdm).2⟩
+    have := dir_ignored_after_writeGroups date _ t d hkeep (hK6bd d (hmemd d hdm))
+      (fun y hy => hs1 y (List.mem_filter.1 hy).1) (hdd d (hmemd d hdm)) (rest ++ [x.name]) false (Or.inl (by simp))
+    rw [hrest]
+    simpa [handlerMid, updateDirGitignores] using this
+  refine ⟨hinside, ?_⟩
+  rw [handlerBatch_eq]
+  cases hdr : drop (handlerDirs dirOps t) x with
+  | true => exact gitIgnored_of_readsLikeMore _ _ b1 _ _ (hinside hdr).choose_spec.2.2
+  | false =>
+    have hx' : x ∈ (handlerFiles fileOps t).filter (fun f => !drop (handlerDirs dirOps t) f) := by
+      refine List.mem_filter.2 ⟨?_, by simp [hdr]⟩
+      unfold handlerFiles
+      refine List.mem_filter.2 ⟨?_, by simp [h0]⟩
+      rw [List.mem_reverse, mem_dedup, List.mem_reverse]; exact hx
+    apply C16_ignored_after_update_partial _ date _ _ x hx' h0 hK6b hs2
+    have := C16_append_only_dirs (gitRules t) date (handlerDirs dirOps t) t x.dir
+    obtain ⟨old, hold⟩ := Option.isSome_iff_exists.1 hdir
+    rw [hold] at this
+    obtain ⟨suf, hsuf⟩ := this
+    show (contentAt x.dir (updateDirGitignores (gitRules t) date (handlerDirs dirOps t) t)).isSome = true
+    rw [hsuf]; rfl
+
+/-- the component-wise filter (`XvcPath::starts_with`) and no filter at all are sound instances -/
+theorem C16_component_filter_sound : ∀ (ds : List Target) (f : Target),
+    (fun (ds : List Target) f => ds.any (insideDir · f)) ds f = true → ∃ d ∈ ds, insideDir d f = true := by
+  intro ds f h
+  obtain ⟨d, hd, hin⟩ := List.any_eq_true.1 h
+  exact ⟨d, hd, hin⟩
+
+/-- **the code**: with the filter regenerated from `make_ignore_handler` every queued file of a batch is ignored after
+    the batch (by name over `Gen.HANDLER_FILE_FILTER`: a tree whose handler filters differently loses this theorem) -/
+theorem C16_batch_every_queued_file_ignored (date : Str) (dirOps fileOps : List Target) (t : Tree) (x : Target)
+    (hx : x ∈ fileOps) (hdir : (contentAt x.dir t).isSome = true)
+    (hd : '\n' ∉ date) (hdn : ∀ y ∈ dirOps, '\n' ∉ y.name) (hfn : ∀ y ∈ fileOps, '\n' ∉ y.name) (ht : NoLoneCR t)
+    (hK6b : PlainName x.name)
+    (hK6a0 : check (gitRules t) x.pathStr ≠ .whitelist)
+    (hK12_0 : check (gitRules t) x.pathStr = .ignore → gitIgnored t (x.dir ++ [x.name]) false = true)
+    (hK6a1 : check (gitRules (handlerMid date dirOps t)) x.pathStr ≠ .whitelist)
+    (hK12_1 : check (gitRules (handlerMid date dirOps t)) x.pathStr = .ignore →
+      gitIgnored (handlerMid date dirOps t) (x.dir ++ [x.name]) false = true) :
+    gitIgnored (handlerUpdateWith Gen.HANDLER_FILE_FILTER date dirOps fileOps t) (x.dir ++ [x.name]) false = true := by
+  rw [handlerUpdateWith_code]
+  exact C16_handler_ignores_reported_file date dirOps fileOps t x hx hdir hd hdn hfn ht hK6b hK6a0 hK12_0 hK6a1 hK12_1
+
+/-- **Counterexample for containment tested on the path TEXT** (`XvcPath::starts_with_str`): one command creates
+    `out/src/m` (queues the directory) and materialises `out/src/m/x.bin`, `out/src/m.bin`, `out/src/n.bin` into it and
+    into the existing `out/src`.  `out/src/m.bin` "starts with" `out/src/m`, is dropped, gets no line, and git does not
+    ignore the tracked file; it is outside every excluded region (xvc's matcher `NoMatch`, literal name).  The same with
+    the directory `data` next to the existing directory `data2/`.  With the filter of the code, with the component-wise
+    filter and with no filter all queued files are ignored; the string filter is NOT component-wise sound. -/
+theorem C16_string_prefix_filter_counterexample :
+    let t : Tree := .node [] [] [("out".toList, .node [] [] [("src".toList, .node [] ["keep.txt".toList] [("m".toList, .node [] [] [])])])]
+    let d : Target := ⟨["out".toList, "src".toList], "m".toList⟩
+    let x : Target := ⟨["out".toList, "src".toList, "m".toList], "x.bin".toList⟩
+    let y : Target := ⟨["out".toList, "src".toList], "m.bin".toList⟩
+    let z : Target := ⟨["out".toList, "src".toList], "n.bin".toList⟩
+    let t2 : Tree := .node [] [] [("data".toList, .node [] [] []), ("data2".toList, .node [] ["keep.txt".toList] [])]
+    let d2 : Target := ⟨[], "data".toList⟩
+    let y2 : Target := ⟨["data2".toList], "x".toList⟩
+    check (gitRules t) y.pathStr = .noMatch ∧ PlainName y.name ∧ (contentAt y.dir t).isSome = true ∧
+    strInside d y = true ∧ insideDir d y = false ∧ insideDir d x = true ∧
+    contentAt ["out".toList, "src".toList] (handlerUpdateWith .startsWithStr "D".toList [d] [x, y, z] t) =
+      some "### Following 1 lines are added by xvc on D\n/m/\n### Following 1 lines are added by xvc on D\n/n.bin\n".toList ∧
+    gitIgnored (handlerUpdateWith .startsWithStr "D".toList [d] [x, y, z] t) ["out".toList, "src".toList, "m.bin".toList] false = false ∧
+    gitIgnored (handlerUpdateWith .startsWithStr "D".toList [d] [x, y, z] t) ["out".toList, "src".toList, "m".toList, "x.bin".toList] false = true ∧
+    gitIgnored (handlerUpdateWith .startsWithStr "D".toList [d2] [y2] t2) ["data2".toList, "x".toList] false = false ∧
+    (∀ filt ∈ [Gen.HANDLER_FILE_FILTER, .startsWithComponents, .none],
+      gitIgnored (handlerUpdateWith filt "D".toList [d] [x, y, z] t) ["out".toList, "src".toList, "m.bin".toList] false = true ∧
+      gitIgnored (handlerUpdateWith filt "D".toList [d] [x, y, z] t) ["out".toList, "src".toList, "m".toList, "x.bin".toList] false = true ∧
+      gitIgnored (handlerUpdateWith filt "D".toList [d] [x, y, z] t) ["out".toList, "src".toList, "n.bin".toList] false = true ∧
+      gitIgnored (handlerUpdateWith filt "D".toList [d2] [y2] t2) ["data2".toList, "x".toList] false = true) := by decide
+
+/-- non-vacuity of `C16_batch_file_rule_dropped_only_inside_ignored_dir`: the same batch, component-wise filter: the file
+    inside the new directory is dropped and ignored through `/m/`, the sibling `m.bin` is not dropped and gets its line -/
+example :
+    let t : Tree := .node [] [] [("out".toList, .node [] [] [("src".toList, .node [] ["keep.txt".toList] [("m".toList, .node [] [] [])])])]
+    let d : Target := ⟨["out".toList, "src".toList], "m".toList⟩
+    let x : Target := ⟨["out".toList, "src".toList, "m".toList], "x.bin".toList⟩
+    let y : Target := ⟨["out".toList, "src".toList], "m.bin".toList⟩
+    let drop := fun (ds : List Target) f => ds.any (insideDir · f)
+    drop (handlerDirs [d] t) x = true ∧ drop (handlerDirs [d] t) y = false ∧
+    check (gitRules t) x.pathStr = .noMatch ∧ check (gitRules t) y.pathStr = .noMatch ∧
+    contentAt ["out".toList, "src".toList] (handlerBatch drop "D".toList [d] [x, y] t) =
+      some "### Following 1 lines are added by xvc on D\n/m/\n### Following 1 lines are added by xvc on D\n/m.bin\n".toList ∧
+    contentAt ["out".toList, "src".toList, "m".toList] (handlerBatch drop "D".toList [d] [x, y] t) = some [] := by decide
+
 /-! ## the append primitive
 
   Everything above is about `writeGroups`, whose edit of one file is `old ++ appendText …`: the theorems
@@ -883,6 +1029,14 @@ open Ign.Git in
 #print axioms C16_ignore_op_independent_of_prior_entry
 open Ign.Git in
 #print axioms C16_send_only_when_absent_counterexample
+open Ign.Git in
+#print axioms C16_handler_filter_as_in_model
+open Ign.Git in
+#print axioms C16_batch_file_rule_dropped_only_inside_ignored_dir
+open Ign.Git in
+#print axioms C16_batch_every_queued_file_ignored
+open Ign.Git in
+#print axioms C16_string_prefix_filter_counterexample
 open Ign.Git in
 #print axioms C16_whitelisted_counterexample
 open Ign.Git in
